@@ -814,7 +814,7 @@ def make_real_file(rng, xz, quick):
             cmd.append("--block-size=%d" % rng.choice([1, 100, 4096, 5000, 65536]))
         if rng.random() < 0.3:
             cmd.append("--block-list=%s" % ",".join(str(rng.randrange(1, 3000)) for _ in range(rng.randrange(1, 5))))
-        p = subprocess.run(cmd, input=piece, stdout=subprocess.PIPE, stderr=subprocess.PIPE, timeout=120)
+        p = subprocess.run(cmd, input=piece, stdout=subprocess.PIPE, stderr=subprocess.PIPE, timeout=600)
         if p.returncode != 0:
             raise RuntimeError("xz failed: " + p.stderr.decode()[:300])
         data += piece
@@ -828,7 +828,9 @@ def judge_real_file(exe, xz, filebytes, data, chunk, seed, workdir):
     against `xz --list --robot -vv`. Returns an error text or None."""
     import lzma, subprocess
     ops = ["reset", "finfo 0 %d %d %d %s" % (1 << 40, chunk, seed, R.hexs(filebytes)), "sum 0", "iter 0 1", "iter 0 2"]
-    rc, out, err = run_hist(exe, ops, timeout=300)
+    rc, out, err = run_hist(exe, ops, timeout=900)
+    if rc == 124:
+        return "TIMEOUT"
     if rc != 0 or len(out) != len(ops):
         return "implementation aborted: " + err[-500:]
     if not out[1].startswith("1 0 S"):
@@ -859,7 +861,11 @@ def judge_real_file(exe, xz, filebytes, data, chunk, seed, workdir):
     path = os.path.join(workdir, "real-%d.xz" % os.getpid())
     with open(path, "wb") as f:
         f.write(filebytes)
-    p = subprocess.run([xz, "--list", "--robot", "-vv", path], stdout=subprocess.PIPE, stderr=subprocess.PIPE, timeout=120)
+    try:
+        p = subprocess.run([xz, "--list", "--robot", "-vv", path], stdout=subprocess.PIPE, stderr=subprocess.PIPE, timeout=600)
+    except subprocess.TimeoutExpired:
+        os.unlink(path)
+        return "TIMEOUT"
     os.unlink(path)
     if p.returncode != 0:
         return "xz --list failed: " + p.stderr.decode()[:300]
@@ -897,7 +903,12 @@ def real_files_stage(ctx, exe):
     n = 8 if ctx.quick() else 60
     cases = []
     for _ in range(n):
-        fb, data = make_real_file(rng, xz, ctx.quick())
+        try:
+            fb, data = make_real_file(rng, xz, ctx.quick())
+        except Exception as ex:          # xz timed out / could not run: machinery, not a verdict
+            ctx.count("real-file:could-not-build-file")
+            ctx.log("real-file stage: " + str(ex)[:200])
+            continue
         cases.append((fb, data, rng.choice([len(fb) + 1, 1 if len(fb) < 3000 else 7, 13, 4096, 8192, 8193, 70000]),
                       rng.choice([0, 0, rng.randrange(1, 1 << 30)])))
 
@@ -919,6 +930,9 @@ def real_files_stage(ctx, exe):
     for c, r in zip(cases, res):
         ctx.case(("realfile", len(c[0]), len(c[1]), c[2], c[3], c[0][:64].hex()), nontrivial=True, sample=None)
         ctx.count("real-file:streams-bytes<1k" if len(c[0]) < 1000 else "real-file:bytes>=1k")
+        if r == "TIMEOUT":
+            ctx.count("real-file:timeout-skipped")
+            continue
         if r is not None:
             bad += 1
             if bad <= 2:
@@ -982,7 +996,7 @@ def run(ctx):
         bins[j % nb].append(i)
     bins = [b for b in bins if b]
 
-    bin_timeout = 400 if ctx.quick() else 2400
+    bin_timeout = 900 if ctx.quick() else 5400
 
     def run_bin(args):
         prog, b = args
@@ -1005,7 +1019,7 @@ def run(ctx):
                 if nfail >= 2:
                     c_out[i] = None
                     continue
-                rc1, o1, e1 = run_hist(exe, hists[i].ops, timeout=20 if ctx.quick() else 120)
+                rc1, o1, e1 = run_hist(exe, hists[i].ops, timeout=120 if ctx.quick() else 600)
                 if rc1 == 0 and len(o1) == len(hists[i].ops):
                     c_out[i] = o1
                 else:
@@ -1057,8 +1071,8 @@ def run(ctx):
             if tag not in seen_tags and nviol < 6:
                 seen_tags.add(tag)
                 slow = isinstance(co, tuple) and co[0] == "HANG"
-                small = shrink(exe, h.ops, fe, budget=40 if slow else 250, timeout=10 if slow else 60)
-                _, d2 = failing(exe, small, fe, 10 if slow else 60)
+                small = shrink(exe, h.ops, fe, budget=30 if slow else 250, timeout=120 if slow else 120)
+                _, d2 = failing(exe, small, fe, 120)
                 ctx.violation(tag, {"kind": (d2 or detail).get("kind"), "ops": small, "detail": d2 or detail, "history_kind": h.kind,
                                     "finfo_expect": fe_dump(small, fe),
                                     "how_to_replay": "./check C13 --replay <this file>   (or: printf '%s\\n' <ops> | .cache/harness-asan/c13)"}, True)
